@@ -232,6 +232,7 @@ func runC09(c *Ctx) {
 			go func() {
 				defer ctl.Done()
 				rr := rig.Rand(c.Seed, "C09ctl", idx)
+				longStalls := 0
 				for {
 					select {
 					case <-stop:
@@ -248,7 +249,12 @@ func runC09(c *Ctx) {
 					} else {
 						mc.Allow(1 + rr.Intn(80))
 					}
-					if rr.Intn(4) == 0 {
+					if b >= 33 && longStalls < 3 && rr.Intn(20) == 0 {
+						// now and then the server pauses for longer than any timeout the client may have been
+						// configured with, while senders wait for room in the full queue: waiting is all they may do
+						longStalls++
+						time.Sleep(60 * time.Millisecond)
+					} else if rr.Intn(4) == 0 {
 						time.Sleep(time.Duration(20+rr.Intn(200)) * time.Microsecond)
 					} else {
 						for g := 0; g < 3; g++ {
